@@ -71,28 +71,14 @@ func judge(c *core.Case, mc *muCase, d *driver, log []event) {
 			seen[e.Addr] = append(seen[e.Addr], e)
 		}
 	}
-	// Calls on one address are made one after the other: a call's request is
-	// the first one of its kind the room saw for the address after the call
-	// began and before the next call on that address began.
+	// every request carries the id "call<n>"
 	perAddr := map[string][]*callRec{}
 	for _, r := range order {
 		perAddr[r.addr] = append(perAddr[r.addr], r)
-	}
-	for a, rs := range perAddr {
-		for k, r := range rs {
-			until := int64(1 << 62)
-			if k+1 < len(rs) {
-				until = rs[k+1].tCall
-			}
-			wantTyp := ""
-			if r.op == "leave" {
-				wantTyp = "unavailable"
-			}
-			for _, e := range seen[a] {
-				if e.T > r.tCall && e.T < until && e.Typ == wantTyp {
-					r.reqID, r.reqTyp, r.haveReq = e.ID, e.Typ, true
-					break
-				}
+		r.reqID = fmt.Sprintf("call%d", r.n)
+		for _, e := range seen[r.addr] {
+			if e.ID == r.reqID {
+				r.reqTyp, r.haveReq = e.Typ, true
 			}
 		}
 	}
